@@ -16,7 +16,8 @@ PROPERTY = "C06"
 RULE = (
     "cases are the six basic shapes with generated parameters (positions, sizes, rx/ry given / omitted / zero / "
     "over-large / percent, point lists of 0..8 points with repeats), constructed from keyword values, positional "
-    "arguments or an attribute dictionary of strings, crossed with the matrix classes. Non-trivial = non-degenerate "
+    "arguments or an attribute dictionary of strings, crossed with the matrix classes and with a history on one object "
+    "(none / length() and point() asked, then reify() / length() and point() asked, then @= matrix). Non-trivial = non-degenerate "
     "shape with a non-similarity transform, or a rounded rect whose radii were auto-completed or clamped; distinct by "
     "the case."
 )
@@ -31,7 +32,7 @@ ASSUMPTIONS = [
 ]
 TOLERANCES = {"straight edges": "1e-12 * S", "curved edges": "1e-9 * S", "through d()": "2e-11 * S (lines), 1e-5 * S (arcs)"}
 RX_CELLS = ["omitted", "zero", "normal", "over", "percent"]
-MANDATORY_LABELS = {"quick": ["kind:%s" % k for k in ("rect", "circle", "ellipse", "line", "polyline", "polygon")] + ["route:kw", "route:args", "route:dict", "degenerate"] + ["rxry:%s/%s" % (a, b) for a in RX_CELLS for b in RX_CELLS if not (a == "percent" and b == "percent")]}
+MANDATORY_LABELS = {"quick": ["kind:%s" % k for k in ("rect", "circle", "ellipse", "line", "polyline", "polygon")] + ["route:kw", "route:args", "route:dict", "degenerate", "history:reify", "history:matmul"] + ["rxry:%s/%s" % (a, b) for a in RX_CELLS for b in RX_CELLS if not (a == "percent" and b == "percent")]}
 MANDATORY_LABELS["thorough"] = MANDATORY_LABELS["quick"]
 
 
@@ -78,7 +79,9 @@ def decode(d):
         if n >= 3 and d.chance(1, 4):
             pts[d.below(n)] = list(pts[d.below(n)])  # a repeated point
         a = {"points": pts}
-    return {"kind": kind, "attrs": a, "cells": cells, "route": d.choice(["kw", "args", "dict"]), "A": gen.matrix(d)}
+    case = {"kind": kind, "attrs": a, "cells": cells, "route": d.choice(["kw", "args", "dict"]), "A": gen.matrix(d)}
+    case["history"] = d.choice([None, "reify", "matmul"])
+    return case
 
 
 def parts(tier):
@@ -334,6 +337,31 @@ def check(case):
         true_len = sum(math.hypot(gen.mat_apply(A, r[2])[0] - gen.mat_apply(A, r[1])[0], gen.mat_apply(A, r[2])[1] - gen.mat_apply(A, r[1])[1]) for r in ref if r[0] in ("L", "Z"))
         if abs(l_baked[0] - true_len) > 1e-9 * max(true_len, SA):
             return o.violation("length:straight-shape", "abs(Path(shape)).length() = %r, the polygon measures %r" % (l_baked[0], true_len))
+    # 6. histories on one object: measure, realise the transform in place, measure again.  The shape must stay
+    #    interchangeable with the path built from it afterwards (caches filled by the first measurement included).
+    hist = case.get("history")
+    if hist:
+        o.label("history:%s" % hist)
+        e = 1e-6 * max(SA, 1.0)
+        h = build(case)
+        if hist == "matmul":
+            first = h.length(error=e), lib.xy(h.point(0.3))
+            h @= mA
+        else:
+            h *= mA
+            first = h.length(error=e), lib.xy(h.point(0.3))
+            h.reify()
+        ph = se.Path(h)
+        if not (h == ph):
+            return o.violation("history:%s:equality" % hist, "%s %r: after length(), point() and realising %r in place the shape is not equal to Path(shape)" % (kind, case["attrs"], A))
+        la, lb = h.length(error=e), ph.length(error=e)
+        if la is None or lb is None or abs(la - lb) > 1e-9 * max(abs(la or 0), abs(lb or 0), SA):
+            return o.violation("history:%s:length" % hist, "%s %r: length() was asked (%r), then %r was realised in place: shape.length() = %r, Path(shape).length() = %r" % (kind, case["attrs"], first[0], A, la, lb))
+        # (Circle/Ellipse.point() is a different function - the transformed point at an angle - and is not compared)
+        for t in (0.2, 0.55, 0.9) if kind not in ("circle", "ellipse") else ():
+            pa, pb = lib.xy(h.point(t)), lib.xy(ph.point(t))
+            if pa is None or pb is None or not core.pclose(pa, pb, 1e-9 * SA):
+                return o.violation("history:%s:point" % hist, "%s %r: point() was asked, then %r was realised in place: shape.point(%r) = %r, Path(shape).point(%r) = %r" % (kind, case["attrs"], A, t, pa, t, pb))
     if known is not None:
         return o.known("KF-ROUNDSHAPE-TRANSFORMED", known.detail)
     auto = case["cells"] and (("omitted" in case["cells"]) != (case["cells"][0] == case["cells"][1] == "omitted") or "over" in case["cells"])
